@@ -400,6 +400,16 @@ pub fn run(check: &mut Check) {
             // a free list that moves across the capacity of one page (overflow pages of the list page)
             hs.push(crate::optx::freelist_boundary_history(g.pagesize));
         }
+        if g.pagesize <= 4096 {
+            // one commit that has to grow the file by more than one 8 MiB step (and not by a whole
+            // number of steps), then an ordinary one and a reopen
+            hs.push(vec![
+                Action::Tx { ops: vec![OpSpec::bucket("create", &[], "big"), OpSpec::put(&["big"], "v12", "T*12582912"), OpSpec::put(&["big"], "small", "v*8")], commit: true },
+                Action::Tx { ops: vec![OpSpec::put(&["big"], "small", "w*300")], commit: true },
+                Action::Reopen,
+                Action::Tx { ops: vec![OpSpec::del(&["big"], "v12")], commit: true },
+            ]);
+        }
         let nh = hs.len();
         if g.pagesize <= 5000 {
             // the same while a reader pins every freed page (pre-sized file), last in the list
